@@ -19,7 +19,7 @@ func init() { Registry["C05"] = runC05 }
 func runC05(tier string, _ []string) int {
 	c := vlib.NewCtx("C05", tier, "exploration")
 	vlib.SetPortBlock(5)
-	c.SetRule("per case a fresh instance with a random graph (C03/C06 generators), then PRNG requests of the classes that must be refused (tombstone on the root; self edge; new edge closing a cycle through live or deleted edges, sent raw and through client.MoveNode / client.MirrorNode; first edge without nodeType; NaN at any position of a node or edge batch, quiet and signalling, both signs) mixed with legal look-alikes that must be accepted (mirror to a non-ancestor, tombstone 0 on the root, +-Inf) and open-status requests (undecodable payloads, root tombstone 2, a request of the bus's maximum payload size - or up to 13 bytes less - made of copies of one identity without time stamps). Monitor: reply of each request; full dump (placements, points, edge points, hashes) before/after every request answered with an error must be identical; an up.> tap drained at the reply barrier must be empty; a follow-up acknowledged write to an unrelated node must be answered. distinct = (request class, graph size bucket, outcome) (Thorough tier: a node placed below 1030-1090 parents; edges that would put its far ancestors below it must be refused.) Finally 1500 refusals (cycles, NaN, missing node type, root tombstone, self edge) on one instance: the process must hold as many file descriptors and goroutines afterwards as before.")
+	c.SetRule("per case a fresh instance with a random graph (C03/C06 generators), then PRNG requests of the classes that must be refused (tombstone on the root; self edge; new edge closing a cycle through live or deleted edges, sent raw and through client.MoveNode / client.MirrorNode; first edge without nodeType; NaN at any position of a node or edge batch, quiet and signalling, both signs) mixed with legal look-alikes that must be accepted (mirror to a non-ancestor, tombstone 0 on the root, +-Inf) and open-status requests (undecodable payloads, root tombstone 2, a request of the bus's maximum payload size - or up to 13 bytes less - made of copies of one identity without time stamps). Monitor: reply of each request; full dump (placements, points, edge points, hashes) before/after every request answered with an error must be identical; an up.> tap drained at the reply barrier must be empty; a follow-up acknowledged write to an unrelated node must be answered. distinct = (request class, graph size bucket, outcome) One instance holds a node placed below 1030-1090 parents (built from the bottom up): edges that would put its far ancestors below it must be refused. Finally 1500 refusals (cycles, NaN, missing node type, root tombstone, self edge) on one instance: the process must hold as many file descriptors and goroutines afterwards as before.")
 	c.Assume("a stack overflow / process death caused by a cycle is reported by the check wrapper as a violation (process-death)")
 	nGraphs := c.N(40, 400)
 	perGraph := c.N(32, 48)
@@ -513,9 +513,9 @@ func runC05(tier string, _ []string) int {
 			}
 		}
 	})
-	// ---- scale (thorough tier): a node with more than a thousand parents; the far end of all those ways up is
+	// ---- scale: a node with more than a thousand parents; the far end of all those ways up is
 	// still an ancestor, and an edge that puts it below the node is a cycle like any other
-	if tier == "thorough" && !vlib.Aborted() {
+	if !vlib.Aborted() {
 		func() {
 			r := vlib.NewR(c.Seed, "c05wide", 0)
 			in, err := vlib.StartInstance(vlib.InstCfg{ID: "c05-wide"})
